@@ -3,5 +3,9 @@
 Pipeline: extract (real source, re-read every run) -> symbolic execution = VC generation
 -> obligations -> back ends (exact normal form, z3, cvc5, Lean) -> verdicts -> evidence.
 """
-REPO = "/repo"
+import os as _os
+# The registered commands always verify /repo.  TPV_REPO is a development aid only: it points the extractor (and the native replays) at a scratch copy
+# so that seeded changes can be evaluated without touching /repo; evidence of such runs goes to a scratch directory, never to /verif/evidence.
+REPO = _os.environ.get("TPV_REPO", "/repo")
+SCRATCH_RUN = REPO != "/repo"
 VERIF = __import__("os").path.dirname(__import__("os").path.dirname(__import__("os").path.abspath(__file__)))
